@@ -437,6 +437,9 @@ struct PkGen {
       if (g.chance(0.03)) o.set("eos", (int64_t)g.below(2));
       if (g.chance(0.03)) o.set("pno", (int64_t)g.below(100));
       if (g.chance(0.02)) o.set("bos", 1);
+      // the block that has just decoded (its storage may have grown for that very packet) is handed a packet it rejects, through either entry
+      // point, and is submitted anyway
+      if (g.chance(0.04)) { Rec &o2 = op("pkt"); o2.setu("j", j).set("fault", g.chance(0.6) ? "foreignhdr" : "empty").set("a", (int64_t)(g.next() >> 24)).setu("b", g.next() % 100000).set("track", (int64_t)g.below(2)).set("force_blockin", 1).set("drain", 1); }
     }
     // a shifted stream that ends on an end-of-stream packet whose position lies: the end trim's 64-bit arithmetic at its extremes
     if (regime && P > 0 && g.chance(0.5)) { Rec &o = op("pkt"); o.setu("j", std::min<size_t>(j + 1, (size_t)P - 1)).set("drain", 1).set("eos", 1).set("go", go);
